@@ -501,6 +501,21 @@ fn text_spellings(v: &Val, canon_text: &str, canon: &[bool]) -> Vec<(String, Str
         let t = canon_text.replacen(": ", ": 1 + ", 1);
         out.push(("expr-in-field".into(), t, Expect::May(vec![])));
     }
+    // enum variants: a surplus field, fields given to a unit variant
+    if let Val::Enum(_, _, payload) = v {
+        match payload {
+            Some(fs) if !fs.is_empty() => {
+                if let Some(stripped) = canon_text.strip_suffix(')') {
+                    out.push(("enum-surplus-field".into(), format!("{stripped}, 0)"), Expect::MustErr));
+                    out.push(("enum-surplus-field".into(), format!("{stripped}, true)"), Expect::MustErr));
+                }
+            }
+            Some(_) => {}
+            None => {
+                out.push(("enum-fields-for-unit-variant".into(), format!("{canon_text}(0)"), Expect::MustErr));
+            }
+        }
+    }
     // identifiers are not literals, even when the program has constants of that name and type
     {
         let bytes: Vec<char> = canon_text.chars().collect();
